@@ -122,6 +122,87 @@ def _rename(fn, mapping):
     return True
 
 
+def strip_noops(tree):
+    """Statements without any effect -- a bare constant expression that is
+    not a docstring, ``pass`` next to other statements -- are dropped from
+    every statement list, so that 'the first statement of f' means the
+    first statement that does something."""
+    for n in ast.walk(tree):
+        for fld in ("body", "orelse", "finalbody"):
+            blk = getattr(n, fld, None)
+            if not (isinstance(blk, list) and blk and
+                    isinstance(blk[0], ast.stmt)):
+                continue
+            doc = isinstance(n, (ast.FunctionDef, ast.ClassDef, ast.Module,
+                                 ast.AsyncFunctionDef)) and fld == "body"
+            keep = []
+            for i, st in enumerate(blk):
+                if isinstance(st, ast.Expr) and isinstance(
+                        st.value, ast.Constant) and not (
+                            doc and i == 0 and
+                            isinstance(st.value.value, str)) and \
+                        st.value.value is not Ellipsis:
+                    continue
+                if isinstance(st, ast.Pass) and len(blk) > 1:
+                    continue
+                keep.append(st)
+            if keep and len(keep) != len(blk):
+                blk[:] = keep
+
+
+
+
+def inline_return_temps(tree):
+    """``x = EXPR`` directly followed by ``return x`` is read as ``return
+    EXPR`` when x is a plain local that occurs nowhere else in the function
+    but in such pairs (extracting the returned expression into a variable,
+    or inlining it again, changes nothing)."""
+    for fn in ast.walk(tree):
+        if not isinstance(fn, (ast.FunctionDef, ast.AsyncFunctionDef)):
+            continue
+        counts = {}
+        for n in ast.walk(fn):
+            if isinstance(n, ast.Name):
+                counts[n.id] = counts.get(n.id, 0) + 1
+        declared = set()
+        for n in ast.walk(fn):
+            if isinstance(n, (ast.Global, ast.Nonlocal)):
+                declared.update(n.names)
+
+        def pairs():
+            for n in ast.walk(fn):
+                for fld in ("body", "orelse", "finalbody"):
+                    blk = getattr(n, fld, None)
+                    if not (isinstance(blk, list) and len(blk) >= 2 and
+                            isinstance(blk[0], ast.stmt)):
+                        continue
+                    for i in range(len(blk) - 1):
+                        a, b = blk[i], blk[i + 1]
+                        if isinstance(a, ast.Assign) and \
+                                len(a.targets) == 1 and \
+                                isinstance(a.targets[0], ast.Name) and \
+                                isinstance(b, ast.Return) and \
+                                isinstance(b.value, ast.Name) and \
+                                b.value.id == a.targets[0].id and \
+                                b.value.id not in declared:
+                            yield blk, a, b
+        found = list(pairs())
+        per_name = {}
+        for blk, a, b in found:
+            per_name[b.value.id] = per_name.get(b.value.id, 0) + 1
+        for blk, a, b in found:
+            name = b.value.id
+            if counts.get(name) != 2 * per_name[name]:
+                continue
+            b.value = a.value
+            blk.remove(a)
+
+
+def pre_normalise(tree):
+    strip_noops(tree)
+    inline_return_temps(tree)
+
+
 _REF = None
 
 
@@ -183,6 +264,7 @@ def generate(repo_root):
             if name.endswith(".__init__"):
                 name = name[:-9]
             tree = ast.parse(open(path, encoding="utf-8").read())
+            pre_normalise(tree)
             for key, node in functions_of(tree, name):
                 loc = ordered_locals(node)
                 if loc:
